@@ -472,7 +472,7 @@ func ruleKeyBase(c *Ctx) {
 			}
 		}
 	}
-	c.census("K-BASE", "stores and lookups of line-keyed maps with a classified key", n, 2)
+	c.census("K-BASE", "stores and lookups of line-keyed maps with a classified key", n, 1)
 }
 
 // rulePayeeKey (I-PAYEEKEY): a transaction is filed under one name everywhere: its payee, or - when it has none -
